@@ -1,18 +1,27 @@
 package mysql
 
-import "github.com/cossacklabs/acra/encryptor/mysql"
+import (
+	"sync"
+
+	"github.com/cossacklabs/acra/encryptor/mysql"
+)
 
 // ProtocolState keeps track of MySQL protocol state.
 type ProtocolState struct {
 	pendingParse mysql.OnQueryObject
 	stmtID       uint32
-	fields       []*ColumnDescription
+	// column descriptions of prepared statements, by statement id, in the form they were sent to the client.
+	// A client that negotiated MARIADB_CLIENT_CACHE_METADATA gets result sets without column descriptions
+	// and reads the rows by the descriptions it has got earlier for the statement.
+	statementFieldsLock sync.Mutex
+	statementFields     map[uint32][]*ColumnDescription
+	lastPreparedStmtID  uint32
 }
 
 // NewProtocolState makes an initial MySQL state, awaiting for queries.
 func NewProtocolState() *ProtocolState {
 	return &ProtocolState{
-		fields: make([]*ColumnDescription, 0),
+		statementFields: make(map[uint32][]*ColumnDescription),
 	}
 }
 
@@ -36,7 +45,54 @@ func (p *ProtocolState) GetStmtID() uint32 {
 	return p.stmtID
 }
 
-// AddColumnDescription add ColumnDescription
-func (p *ProtocolState) AddColumnDescription(field *ColumnDescription) {
-	p.fields = append(p.fields, field)
+// RegisterPreparedStatement remembers the statement as the last prepared one and forgets column descriptions
+// that were stored for its id before
+func (p *ProtocolState) RegisterPreparedStatement(stmtID uint32) {
+	p.statementFieldsLock.Lock()
+	p.lastPreparedStmtID = stmtID
+	delete(p.statementFields, stmtID)
+	p.statementFieldsLock.Unlock()
+}
+
+// SetStatementFields stores copies of column descriptions of the prepared statement
+func (p *ProtocolState) SetStatementFields(stmtID uint32, fields []*ColumnDescription) {
+	p.statementFieldsLock.Lock()
+	p.statementFields[p.resolveStatementID(stmtID)] = copyColumnDescriptions(fields)
+	p.statementFieldsLock.Unlock()
+}
+
+// StatementFields returns copies of column descriptions stored for the prepared statement, false if there are no any
+func (p *ProtocolState) StatementFields(stmtID uint32) ([]*ColumnDescription, bool) {
+	p.statementFieldsLock.Lock()
+	defer p.statementFieldsLock.Unlock()
+	fields, ok := p.statementFields[p.resolveStatementID(stmtID)]
+	if !ok {
+		return nil, false
+	}
+	return copyColumnDescriptions(fields), true
+}
+
+// DeleteStatementFields forgets column descriptions of the closed prepared statement
+func (p *ProtocolState) DeleteStatementFields(stmtID uint32) {
+	p.statementFieldsLock.Lock()
+	delete(p.statementFields, stmtID)
+	p.statementFieldsLock.Unlock()
+}
+
+// resolveStatementID maps the id that means "the last prepared statement" (MariaDB) to the id of that statement
+func (p *ProtocolState) resolveStatementID(stmtID uint32) uint32 {
+	if stmtID == MariaDBDirectStatementID {
+		return p.lastPreparedStmtID
+	}
+	return stmtID
+}
+
+// copyColumnDescriptions copies descriptions: rows processing may roll back the type of a description
+func copyColumnDescriptions(fields []*ColumnDescription) []*ColumnDescription {
+	copies := make([]*ColumnDescription, len(fields))
+	for i, field := range fields {
+		fieldCopy := *field
+		copies[i] = &fieldCopy
+	}
+	return copies
 }
